@@ -10,18 +10,118 @@ Claimed clauses (SQL side, real effective text via sqlvc):
   4. cancel_job_group: called on an already cancelled group it writes nothing (idempotent); otherwise it inserts exactly the
      row (b, g) into job_groups_cancelled and deletes nothing, hence grp_cancelled'(b,h) <=> grp_cancelled(b,h) or g in anc*(b,h):
      siblings and ancestors are unaffected.  cancel_batch: same with g = 0.
+Python side (pyvc on the real functions; every embedded statement is parsed and EVALUATED by sqlvc, not matched as text):
+  5. front_end._create_job_group: a group is created only beneath a parent with no cancelled self-or-ancestor; its ancestor
+     closure is exactly {own row at level 0} + {every self-and-ancestors row of the parent, one level up} (a closure that lacks an
+     ancestor is not reached by cancelling that ancestor); 400 only for a cancelled parent or a group deeper than
+     MAX_JOB_GROUPS_DEPTH, accepted only within the limit, and the depth rejection is reachable.
+  6. front_end.commit_update and front_end._create_batch_update.update: every row of the gate query reports `cancelled` iff the
+     ROOT group of this batch is in job_groups_cancelled; the commit procedure is called / the batch_updates row is written only
+     if it is not; 400 'cancelled batch' only if it is (a cancelled sub-group never blocks its siblings).
+  7. batch.cancel_job_group_in_db.cancel: an accepted cancellation is recorded by exactly one CALL cancel_job_group(batch, group).
+Known finding (unchanged repository): is_job_cancelled returns a scalar subquery with one row per cancelled self-or-ancestor group
+(LEFT JOIN LATERAL without LIMIT 1): two cancelled groups on a job's ancestor path make MySQL raise error 1242 in schedule_job /
+mark_job_creating / mark_job_started - obligation is_job_cancelled/scalar-subquery-yields-at-most-one-row (known_findings.json).
 """
 from __future__ import annotations
 
 import z3
 
 from contracts import sqlspec as SP
-from vc import core, sqlast as A, sqlvc
+from vc import core, sqlast as A, sqlparse, sqlvc
 from vc.sqlvc import SV, intern, truthy
 
 
 def _truth(sv):
     return truthy(sv)
+
+
+
+# ---------------------------------------------------------------------------------------------------------------------------
+# SQL embedded in Python: the statement text is parsed and EVALUATED by sqlvc over the abstract database (no pattern on its
+# text); `%s` placeholders are bound to the symbolic values the Python code passes.
+
+
+def _sql_text(node):
+    import ast as pyast
+
+    a0 = node.args[0] if node.args else None
+    if isinstance(a0, pyast.Constant) and isinstance(a0.value, str):
+        return a0.value
+    raise core.Undecided('embedded SQL is not a string literal')
+
+
+def _to_sv(eng, v):
+    """a pyvc value passed as a query argument -> nullable SQL scalar (opaque values, e.g. strings, through one uninterpreted code)"""
+    from vc import pyvc
+
+    if v is None or isinstance(v, (bool, int, str)):
+        return sqlvc.lit(v)
+    if isinstance(v, z3.ExprRef):
+        if z3.is_int(v):
+            return SV(False, v)
+        if z3.is_bool(v):
+            return SV(False, z3.If(v, z3.IntVal(1), z3.IntVal(0)))
+        if v.sort() == pyvc.U:
+            return SV(v == z3.Const('const_None', pyvc.U), eng.uf('sql_value_of', ['U'], 'int')(v))
+    raise core.Undecided('query argument %r' % (v,))
+
+
+def _bind_params(stn, sqst, params):
+    n = len({x.index for x in stn.walk() if isinstance(x, A.Param)})
+    if not isinstance(params, (tuple, list)) or n != len(params):
+        raise core.Undecided('statement has %d placeholders, %s arguments are passed' % (n, len(params) if isinstance(params, (tuple, list)) else '?'))
+    s = sqst.fork()
+    for i, v in enumerate(params):
+        s.uservars['%%param%d' % i] = v
+    return s
+
+
+def _select_rows(ex, sqst, sql, params):
+    """result set of an embedded SELECT: -> (cond, keyvars, {column: SV}, side conditions).  Every assignment of the key variables
+    that satisfies cond is one result row.  ORDER BY / LIMIT only choose among these rows: a fetchone() of the statement
+    returns SOME row of the set (over-approximation, sound for what must hold of every row)."""
+    stn = sqlparse.parse_statements(sql)[0]
+    if not isinstance(stn, A.SelectStmt) or not isinstance(stn.select, A.Select) or stn.select.from_ is None:
+        raise core.Undecided('not a plain SELECT: %s' % ' '.join(sql.split())[:80])
+    sel = stn.select
+    if ex.has_aggregate(sel) or sel.having is not None:
+        raise core.Undecided('aggregate in an embedded gate query')
+    s = _bind_params(stn, sqst, params)
+    n0 = len(s.pc)
+    aliases, cond, kv = ex.bind_from(sel.from_, sel.where, sqlvc.Scope(s), s)
+    sc = sqlvc.Scope(s, aliases)
+    cols = {}
+    for i, c in enumerate(sel.columns):
+        nm = c.alias or (c.expr.parts[-1] if isinstance(c.expr, A.Name) else 'col%d' % i)
+        cols[nm] = ex.ev(c.expr, sc)
+    return cond, kv, cols, list(s.pc[n0:])
+
+
+def _fetch_row(eng, st, node, ex, sqst, params, tag, on_row=None):
+    """model of `fetchone(<SELECT literal>, args)`: None when the result set is empty, else a record of SOME result row"""
+    from vc import pyvc
+    from vc.pyvc import Fork
+
+    cond, kv, cols, side = _select_rows(ex, sqst, _sql_text(node), [_to_sv(eng, p) for p in params])
+    row = pyvc.SRecord('row', {k: v.v for k, v in cols.items()})
+
+    def found(s):
+        s.assume(cond)
+        for c in side:
+            s.assume(c)
+        if on_row is not None:
+            on_row(s, cols)
+
+    raise Fork(node, [(tag + '-row', None, 'value', row, found), (tag + '-no-row', None, 'value', None, None)])
+
+
+class _RecordingEngine:
+    """mixin: keeps the path condition of every exceptional exit (for reachability obligations on rejections)"""
+
+    def at_raise(self, st, exc):
+        self.__dict__.setdefault('raise_paths', []).append((list(st.pc), exc, dict(st.env)))
+        return super().at_raise(st, exc)
 
 
 def _python_side(ctx):
@@ -71,28 +171,112 @@ def _python_side(ctx):
             raise Fork(node, [('an-ancestor-or-the-parent-is-cancelled', None, 'value', row, lambda s: s.env.__setitem__('PARENT_CANCELLED', True)), ('nothing-above-is-cancelled', None, 'value', None, lambda s: s.env.__setitem__('CHECKED_CLEAR', True))])
         raise core.Undecided('unrecognised query in _create_job_group: %s' % ' '.join(sql.split())[:80])
 
+    # ---- wave 4: the ancestor closure written by _create_job_group, evaluated by sqlvc on the real statement text
+    ex = SP.proc_exec(inline_after=False)
+    sq = ex.new_state()
+    jgsa = sq.db.tab('job_group_self_and_ancestors')
+    n_anc = z3.Function('n_self_and_ancestors_rows', z3.IntSort(), z3.IntSort(), z3.IntSort())  # ghost: |{a : (b, g, a) in jgsa}|
+
+    def ids(st):
+        return [pyvc.to_z3(st.env[k], 'int') for k in ('batch_id', 'job_group_id', 'parent_job_group_id')]
+
     def insert(eng, st, args, kw, node):
         sql = node.args[0].value if isinstance(node.args[0], pyast.Constant) else ''
         if 'INSERT INTO job_groups ' in sql:
             st.env['n_group_rows'] = st.env['n_group_rows'] + 1
             eng.oblige(st, 'a-group-row-is-written-only-after-the-parent-was-found-not-cancelled', st.env['CHECKED_CLEAR'])
+        try:
+            stn = sqlparse.parse_statements(sql)[0]
+        except Exception as e:  # pylint: disable=broad-except
+            raise core.Undecided('unparsed write in _create_job_group: %s' % e)
+        if isinstance(stn, A.Insert) and stn.table == 'job_group_self_and_ancestors':
+            if not isinstance(stn.source, list) or len(stn.source) != 1 or not isinstance(args[1], tuple):
+                raise core.Undecided('self-row insert of _create_job_group is not INSERT .. VALUES (one row)')
+            s2 = _bind_params(stn, sq, [_to_sv(eng, p_) for p_ in args[1]])
+            given = dict(zip(list(stn.columns) if stn.columns else list(jgsa.cols), [ex.ev(e, sqlvc.Scope(s2)) for e in stn.source[0]]))
+            b, g, _p = ids(st)
+            eng.oblige(st, 'the-single-row-insert-is-the-groups-own-row-at-level-0', z3.And(*[z3.Not(given[c].n) for c in ('batch_id', 'job_group_id', 'ancestor_id', 'level')], given['batch_id'].v == b, given['job_group_id'].v == g, given['ancestor_id'].v == g, given['level'].v == 0) if all(c in given for c in ('batch_id', 'job_group_id', 'ancestor_id', 'level')) else z3.BoolVal(False))
+            st.env['n_self_rows'] = st.env['n_self_rows'] + 1
         return z3.Int(pyvc.fresh_name('rows'))
+
+    def closure_insert(eng, st, args, kw, node):
+        """INSERT INTO job_group_self_and_ancestors ... SELECT ... : the rows it writes for the new group g must be exactly
+        {(b, g, a, level(b, parent, a) + 1) : (b, parent, a) is a self-and-ancestors row of the parent} - ALL of them (a missing
+        ancestor row means cancelling that ancestor does not reach g) and nothing else.  Its row count is then the number of
+        self-and-ancestors rows of the parent, which is what the nesting-depth rejection compares with the limit."""
+        sql = node.args[0].value if isinstance(node.args[0], pyast.Constant) else ''
+        stn = sqlparse.parse_statements(sql)[0]
+        if not (isinstance(stn, A.Insert) and stn.table == 'job_group_self_and_ancestors' and not isinstance(stn.source, list)) or not isinstance(args[1], tuple):
+            raise core.Undecided('unrecognised set-oriented write in _create_job_group: %s' % ' '.join(sql.split())[:80])
+        sel = stn.source.select if isinstance(stn.source, A.SelectStmt) else stn.source
+        s2 = _bind_params(stn, sq, [_to_sv(eng, p_) for p_ in args[1]])
+        n0 = len(s2.pc)
+        info = ex.analyze_upsert(stn, stn.table, list(stn.columns) if stn.columns else list(jgsa.cols), sel, s2)
+        if info['increments'] or info.get('aggregates') or len(s2.pc) != n0:
+            raise core.Undecided('ancestor-closure insert with ON DUPLICATE KEY / aggregates / sub-queries')
+        kv, cond, key, vals = info['kvars'], info['cond'], info['key'], info['values']
+        b, g, p = ids(st)
+        tk = [key[c] for c in ('batch_id', 'job_group_id', 'ancestor_id')]
+        notnull = z3.And(*[z3.Not(x.n) for x in tk], z3.Not(vals['level'].n))
+        # (i) every self-and-ancestors row of the parent is copied, one level further away
+        a = z3.Int(pyvc.fresh_name('any_ancestor'))
+        row_a = z3.And(cond, notnull, tk[0].v == b, tk[1].v == g, tk[2].v == a, vals['level'].v == jgsa.get([b, p, a], 'level').v + 1)
+        if len(kv) == 1 and z3.is_int(kv[0]):
+            copied = z3.substitute(row_a, (kv[0], a))  # the source row is the one keyed by this ancestor
+        else:
+            copied = z3.Exists(kv, row_a) if kv else row_a
+        st2 = st.fork()
+        st2.assume(jgsa.has([b, p, a]))
+        eng.oblige(st2, 'the-new-group-inherits-every-self-and-ancestors-row-of-its-parent-one-level-up', copied)
+        # (ii) nothing else is written: every written row belongs to the new group and copies a row of the parent
+        st3 = st.fork()
+        st3.assume(cond)
+        eng.oblige(st3, 'the-closure-insert-writes-only-ancestor-rows-of-the-parent-for-the-new-group', z3.And(notnull, tk[0].v == b, tk[1].v == g, jgsa.has([b, p, tk[2].v]), vals['level'].v == jgsa.get([b, p, tk[2].v], 'level').v + 1))
+        # (iii) distinct source rows are distinct target rows (so the row count is the number of source rows)
+        if kv:
+            kv2 = [z3.Const(pyvc.fresh_name('other_' + str(k)), k.sort()) for k in kv]
+            sub = list(zip(kv, kv2))
+            st4 = st.fork()
+            st4.assume(cond)
+            st4.assume(z3.substitute(cond, *sub))
+            st4.assume(z3.And(*[x.v == z3.substitute(x.v, *sub) for x in tk]))
+            eng.oblige(st4, 'the-closure-insert-writes-one-row-per-ancestor-row', z3.And(*[k == k2 for k, k2 in sub]))
+        st.env['n_closure'] = st.env['n_closure'] + 1
+        # by (i)-(iii) the driver's row count is the number of self-and-ancestors rows of the parent
+        return n_anc(b, p)
+
+    def setup(eng, st):
+        # structural invariant A2 of job_group_self_and_ancestors for the (existing) parent: the root group is an ancestor of every
+        # group and the levels of a group's rows are 0..depth, one row each - the number of rows is the level of the root row + 1.
+        # _create_job_group preserves it for the group it creates (obligations (i)-(iii) and the own row at level 0).
+        b, _g, p = ids(st)
+        depth = jgsa.get([b, p, z3.IntVal(0)], 'level').v
+        st.env['PARENT_DEPTH'] = depth
+        st.assume(z3.And(depth >= 0, n_anc(b, p) == depth + 1))
 
     nothing = lambda eng, st, args, kw, node: None  # noqa: E731
     c1 = Contract(
         path=FE, qualname='_create_job_group', types={'tx': 'U', 'batch_id': 'int', 'job_group_id': 'int', 'update_id': 'int', 'user': 'U', 'attributes': 'U', 'cancel_after_n_failures': 'U', 'callback': 'U', 'timestamp': 'int', 'parent_job_group_id': 'int'},
         consts={'ROOT_JOB_GROUP_ID': 0, 'MAX_JOB_GROUPS_DEPTH': z3.Int('MAX_JOB_GROUPS_DEPTH')}, opaque_methods=False,
-        calls={'tx.execute_and_fetchone': fetchone, 'tx.execute_insertone': insert, 'tx.execute_update': lambda eng, st, args, kw, node: z3.Int(pyvc.fresh_name('n_rows')), 'tx.execute_many': nothing, 'json.dumps': lambda eng, st, args, kw, node: z3.Const('json', pyvc.U),
+        calls={'tx.execute_and_fetchone': fetchone, 'tx.execute_insertone': insert, 'tx.execute_update': closure_insert, 'tx.execute_many': nothing, 'json.dumps': lambda eng, st, args, kw, node: z3.Const('json', pyvc.U),
                '.items': lambda eng, st, args, kw, node: pyvc.SList(z3.IntVal(0), None, None)},
-        ghost_init={'PARENT_CANCELLED': 'False', 'CHECKED_CLEAR': 'False', 'n_group_rows': '0'},
-        ensures=[('a-group-is-created-only-beneath-a-parent-with-no-cancelled-ancestor-or-self', 'CHECKED_CLEAR and not PARENT_CANCELLED and n_group_rows == 1')],
-        raises={'HTTPBadRequest': True, 'AssertionError': True, '*': True},  # 400 also for too deep a nesting
+        ghost_init={'PARENT_CANCELLED': 'False', 'CHECKED_CLEAR': 'False', 'n_group_rows': '0', 'n_self_rows': '0', 'n_closure': '0'}, setup=setup,
+        ensures=[('a-group-is-created-only-beneath-a-parent-with-no-cancelled-ancestor-or-self', 'CHECKED_CLEAR and not PARENT_CANCELLED and n_group_rows == 1'),
+                 ('the-group-gets-its-own-row-once-and-a-sub-group-the-closure-of-its-parent-once', 'n_self_rows == 1 and n_closure == (0 if job_group_id == ROOT_JOB_GROUP_ID else 1)'),
+                 ('a-sub-group-is-accepted-only-within-the-nesting-limit', 'job_group_id == ROOT_JOB_GROUP_ID or PARENT_DEPTH + 1 <= MAX_JOB_GROUPS_DEPTH')],
+        # 400 only for a cancelled parent or for a group nested deeper than the limit (depth of the new group = depth of its parent + 1)
+        raises={'HTTPBadRequest': 'PARENT_CANCELLED or (n_closure == 1 and PARENT_DEPTH + 1 > MAX_JOB_GROUPS_DEPTH)', 'AssertionError': True, '*': True},
         on_raise=[('nothing-is-created-beneath-a-cancelled-group', 'implies(PARENT_CANCELLED, n_group_rows == 0)')],
         canaries=[('always-refused', 'n_group_rows == 0')],
     )
+    class Eng(_RecordingEngine, pyvc.Engine):
+        pass
+
     try:
-        eng = pyvc.Engine(ctx, c1)
+        eng = Eng(ctx, c1)
         eng.run()
+        too_deep = [z3.And(*pc) for pc, exc, env in eng.raise_paths if exc.cls == 'HTTPBadRequest' and env.get('PARENT_CANCELLED') is not True]
+        ctx.add(core.satisfiable('C07/_create_job_group/vacuity/the-nesting-depth-rejection-is-reachable', z3.Or(*too_deep) if too_deep else z3.BoolVal(False)))
         ctx.add(core.decided('C07/_create_job_group/no-call-outside-the-contract', not [u for u in eng.unmodelled if not u.startswith('log.')], repr(eng.unmodelled), kind='frame'))
     except core.Undecided as e:
         # the tail of the function (ancestor rows, attributes) is bookkeeping; if it leaves the subset the guard itself is still decided on a prefix
@@ -131,8 +315,132 @@ def _python_side(ctx):
     ctx.add(core.decided('C07/cancel_job_group_in_db.cancel/no-call-outside-the-contract', not eng.unmodelled, repr(eng.unmodelled), kind='frame'))
 
 
+def _python_gates(ctx):
+    """The two Python gates that keep work out of a cancelled BATCH (wave 4): `commit_update` (slow-path commit) and
+    `_create_batch_update.update` (opening an update; also the head of the fast path).  Both read the cancellation state with a
+    hand-written query; the query is evaluated by sqlvc over the abstract database, so the clause is semantic:
+      * the request is refused as 'cancelled' only if the ROOT group of THIS batch is marked in job_groups_cancelled - a cancelled
+        sub-group (sibling subtree) never blocks the batch, and
+      * the commit procedure is called / the batch_updates row is written only if the root group of this batch is NOT marked."""
+    from vc import pyvc
+    from vc.pyvc import Contract, Fork
+
+    FE = 'batch/batch/front_end/front_end.py'
+    ex = SP.proc_exec(inline_after=False)
+    opaque = lambda name: (lambda eng, st, args, kw, node: z3.Const(pyvc.fresh_name(name), pyvc.U))  # noqa: E731
+
+    class Eng(_RecordingEngine, pyvc.Engine):
+        pass
+
+    def root_marked(sqst, batch):
+        return sqst.db.tab('job_groups_cancelled').has([pyvc.to_z3(batch, 'int'), z3.IntVal(0)])
+
+    def gate_row(eng, sqst):
+        def on_row(s, cols):
+            if 'cancelled' not in cols:
+                raise core.Undecided('%s: the gate query selects no `cancelled` column' % eng.label)
+            c = cols['cancelled']
+            marked = root_marked(sqst, s.env['batch_id'])
+            s.env['GATE_ROWS'] = s.env['GATE_ROWS'] + 1
+            # stated for EVERY row the query can return (fetchone takes an arbitrary one when there are several)
+            eng.oblige(s, 'every-row-of-the-gate-query-reports-cancelled-iff-the-root-group-of-this-batch-is-marked', z3.And(z3.Not(c.n), truthy(c) == marked))
+
+        return on_row
+
+    # ---- commit_update ---------------------------------------------------------------------------------------------------
+    sq1 = ex.new_state()
+    for t in ('batches', 'batch_updates', 'job_groups_cancelled'):
+        sq1.db.tab(t)
+
+    def select_and_fetchone(eng, st, args, kw, node):
+        if 'batch_id' not in st.env or not isinstance(args[1], tuple):
+            raise core.Undecided('commit_update: gate query before batch_id is known / arguments not a tuple')
+        st.env['ROOT_CANCELLED'] = root_marked(sq1, st.env['batch_id'])
+        _fetch_row(eng, st, node, ex, sq1, args[1], 'gate', gate_row(eng, sq1))
+
+    def commit(eng, st, args, kw, node):
+        if len(args) < 2:
+            raise core.Undecided('_commit_update call shape')
+        eng.oblige(st, 'the-commit-is-for-the-batch-of-this-request', eng.equal(args[1], st.env['batch_id']))
+        eng.oblige(st, 'an-update-is-committed-only-if-the-root-group-of-its-batch-is-not-cancelled', z3.And(z3.BoolVal(st.env['GATE_ROWS'] >= 1), z3.Not(root_marked(sq1, args[1]))))
+        st.env['n_commits'] = st.env['n_commits'] + 1
+        e = z3.Const(pyvc.fresh_name('commit_exc'), pyvc.U)
+        raise Fork(node, [('committed', None, 'value', None, None), ('commit-procedure-refuses', None, 'raise', pyvc.SExc(term=e), None)])
+
+    c_commit = Contract(
+        path=FE, qualname='commit_update', types={'request': 'U', 'userdata': 'U', '.app': 'U', '.match_info': 'U', '[db]': 'U', '[username]': 'U', '[batch_id]': 'U', '[update_id]': 'U'},
+        consts={'ROOT_JOB_GROUP_ID': 0},
+        calls={'db.select_and_fetchone': select_and_fetchone, '_commit_update': commit, 'json_response': opaque('response'), 'int': lambda eng, st, args, kw, node: eng.uf('int_of', ['U'], 'int')(pyvc.to_z3(args[0], 'U'))},
+        ghost_init={'n_commits': '0', 'GATE_ROWS': '0', 'ROOT_CANCELLED': 'False'},
+        ensures=[('a-commit-answered-normally-has-called-the-procedure-once-for-a-batch-that-is-not-cancelled', 'n_commits == 1 and not ROOT_CANCELLED')],
+        # 400 'cancelled batch' only for a cancelled ROOT group: a cancelled sibling / sub-group must not block the commit
+        raises={'HTTPNotFound': 'n_commits == 0', 'HTTPBadRequest': 'n_commits == 0 and ROOT_CANCELLED', '*': 'n_commits == 1'},
+        canaries=[('never-commits', 'n_commits == 0')],
+    )
+    e1 = Eng(ctx, c_commit)
+    e1.run()
+    ctx.add(core.decided('C07/commit_update/no-call-outside-the-contract', not [u for u in e1.unmodelled if not u.startswith('log.')], repr(e1.unmodelled), kind='frame'))
+    refused = [z3.And(*pc) for pc, exc, env in e1.raise_paths if exc.cls == 'HTTPBadRequest']
+    ctx.add(core.satisfiable('C07/commit_update/vacuity/a-cancelled-batch-is-refused', z3.Or(*refused) if refused else z3.BoolVal(False)))
+
+    # ---- _create_batch_update.update ---------------------------------------------------------------------------------------
+    sq2 = ex.new_state()
+    for t in ('batches', 'batch_updates', 'job_groups_cancelled'):
+        sq2.db.tab(t)
+
+    def fetchone(eng, st, args, kw, node):
+        sql = ' '.join(_sql_text(node).split())
+        if not isinstance(args[1], tuple):
+            raise core.Undecided('_create_batch_update: query arguments are not a tuple')
+        stn = sqlparse.parse_statements(sql)[0]
+        names = [c.alias or (c.expr.parts[-1] if isinstance(c.expr, A.Name) else '?') for c in stn.select.columns] if isinstance(stn, A.SelectStmt) and isinstance(stn.select, A.Select) else []
+        if 'cancelled' in names:
+            _fetch_row(eng, st, node, ex, sq2, args[1], 'gate', gate_row(eng, sq2))
+        # the token look-up and the last-update look-up (contracts of C09): any row of their result sets
+        _fetch_row(eng, st, node, ex, sq2, args[1], 'lookup')
+
+    def insertone(eng, st, args, kw, node):
+        stn = sqlparse.parse_statements(_sql_text(node))[0]
+        if not isinstance(stn, A.Insert) or not isinstance(stn.source, list) or len(stn.source) != 1 or not isinstance(args[1], tuple):
+            raise core.Undecided('unexpected write in _create_batch_update')
+        s = _bind_params(stn, sq2, [_to_sv(eng, p) for p in args[1]])
+        tab = s.db.tab(stn.table)
+        given = dict(zip(list(stn.columns) if stn.columns else list(tab.cols), [ex.ev(e, sqlvc.Scope(s)) for e in stn.source[0]]))
+        if stn.table == 'batch_updates':
+            if 'batch_id' not in given:
+                raise core.Undecided('INSERT INTO batch_updates without batch_id')
+            eng.oblige(st, 'an-update-is-opened-only-if-the-root-group-of-its-batch-is-not-cancelled', z3.And(z3.BoolVal(st.env['GATE_ROWS'] >= 1), z3.Not(given['batch_id'].n), z3.Not(root_marked(sq2, given['batch_id'].v))))
+            eng.oblige(st, 'the-update-is-opened-in-the-batch-of-this-request', z3.And(z3.Not(given['batch_id'].n), given['batch_id'].v == pyvc.to_z3(st.env['batch_id'], 'int')))
+            st.env['n_updates'] = st.env['n_updates'] + 1
+        else:
+            raise core.Undecided('_create_batch_update writes %s' % stn.table)
+        return z3.Int(pyvc.fresh_name('rowid'))
+
+    c_open = Contract(
+        path=FE, qualname='_create_batch_update.update', label='_create_batch_update.update[cancelled-batch-gate]', types={'tx': 'U'},
+        extra_inputs={'batch_id': 'int', 'update_token': 'U', 'n_jobs': 'int', 'n_job_groups': 'int', 'user': 'U'}, consts={'ROOT_JOB_GROUP_ID': 0},
+        calls={'tx.execute_and_fetchone': fetchone, 'tx.execute_insertone': insertone, 'time_msecs': lambda eng, st, args, kw, node: z3.Int(pyvc.fresh_name('now')), 'int': lambda eng, st, args, kw, node: pyvc.to_z3(args[0], 'int')},
+        setup=lambda eng, st: st.env.__setitem__('ROOT_CANCELLED', root_marked(sq2, st.env['batch_id'])),
+        ghost_init={'n_updates': '0', 'GATE_ROWS': '0'},
+        ensures=[('no-update-is-opened-in-a-cancelled-batch', 'implies(n_updates > 0, not ROOT_CANCELLED)')],
+        raises={'HTTPNotFound': 'n_updates == 0', 'HTTPBadRequest': 'n_updates == 0 and ROOT_CANCELLED', 'AssertionError': 'n_updates == 0'},
+        canaries=[('never-opens-an-update', 'n_updates == 0')],
+    )
+    e2 = Eng(ctx, c_open)
+    e2.run()
+    ctx.add(core.decided('C07/_create_batch_update.update/no-call-outside-the-contract', not [u for u in e2.unmodelled if not u.startswith('log.')], repr(e2.unmodelled), kind='frame'))
+    refused = [z3.And(*pc) for pc, exc, env in e2.raise_paths if exc.cls == 'HTTPBadRequest']
+    ctx.add(core.satisfiable('C07/_create_batch_update.update/vacuity/a-cancelled-batch-is-refused', z3.Or(*refused) if refused else z3.BoolVal(False)))
+    ctx.assume('commit_update reads the cancellation state outside the transaction of commit_batch_update: the gate is stated for the database at the time of the read (a cancel racing with the commit is serialised by the SQL side only)')
+
+
+def jobs_has(db, b, j):
+    return db.tab('jobs').has([b, j])
+
+
 def build(ctx):
     _python_side(ctx)
+    _python_gates(ctx)
     ex = SP.proc_exec(inline_after=False)
     # ---- 1. the three SQL functions
     st = ex.new_state()
@@ -151,7 +459,16 @@ def build(ctx):
     ctx.under_contract(SP.rel(f.source_file), 'FUNCTION is_job_cancelled')
     st2 = ex.new_state()
     st2.db = db
+    n_sq = len(ex.scalar_subquery_rows)
     r = ex.call_function(f, [SV(False, b), SV(False, j)], st2)
+    # "answered normally for jobs under ANY combination of cancelled groups": MySQL answers a scalar subquery only if it yields at
+    # most one row (error 1242 otherwise, which aborts schedule_job / mark_job_creating / mark_job_started).  sqlvc keeps the
+    # value of such a subquery as "some row" and records the row set; uniqueness of the row is this obligation.
+    for rec in ex.scalar_subquery_rows[n_sq:]:
+        kv = rec['kvars']
+        kv2 = [z3.Const(sqlvc.fresh('other_row'), k.sort()) for k in kv]
+        sub = list(zip(kv, kv2))
+        ctx.add(core.valid('is_job_cancelled/scalar-subquery-yields-at-most-one-row/%s@L%s' % (rec['what'].replace(' ', '-'), rec['line']), list(rec['pc']) + [jobs_has(db, b, j), rec['cond'], z3.substitute(rec['cond'], *sub)], z3.And(*[k == k2 for k, k2 in sub]), what=rec['what']))
     jobs = db.tab('jobs')
     wf = [jobs.has([b, j])]  # always_run / cancelled / job_group_id are NOT NULL columns
     ctx.add(core.valid('is_job_cancelled/equals-spec', list(st2.pc) + wf, z3.And(z3.Not(r.n), _truth(r) == SP.job_cancelled(db, b, j))))
@@ -260,5 +577,7 @@ def build(ctx):
     ctx.assume('each procedure call is atomic (serialisable isolation); MySQL NULL/boolean semantics as encoded in vc/sqlvc.py')
     ctx.assume('structural invariant A1 used as precondition of cancel_*: (b,g,g) is in job_group_self_and_ancestors for every group and the root group 0 has no other ancestor (established where groups are created; see C08)')
     ctx.assume('jobs.always_run, jobs.cancelled, jobs.job_group_id are NOT NULL columns (schema replayed from the migrations)')
-    ctx.undecided('Python side: commit_update / _create_batch_update rejecting a cancelled batch and the scheduler/canceller selection queries (cancel_job_group_in_db and _create_job_group ARE under contract)')
+    ctx.assume('structural invariant A2 used as precondition of _create_job_group for the parent group: the root group is an ancestor of every group and the levels of the self-and-ancestors rows of a group are 0..depth, one row each, i.e. their number is the level of the root row + 1; preserved for the created group by the closure obligations (own row at level 0, every row of the parent copied one level up, nothing else); the row count returned by the driver for the closure INSERT..SELECT is the number of source rows (obligations (i)-(iii) of closure_insert)')
+    ctx.assume('fetchone() of a SELECT returns SOME row of its result set (ORDER BY / LIMIT over-approximated); selected columns other than the gate column are read as non-NULL integers')
+    ctx.undecided('Python side: the scheduler/canceller selection queries in pool.py / canceller.py (cancel_job_group_in_db, _create_job_group, commit_update and _create_batch_update.update ARE under contract)')
     ctx.undecided('in-flight scheduling decisions racing with a cancel at the Python level (the SQL guard serialises them)')
